@@ -11,6 +11,7 @@ Every run is a pure function of (/repo working tree, VERIF_SEED, tier), apart
 from the time-boxed native fuzz legs of the thorough tier.
 """
 import glob
+import resource
 import hashlib
 import json
 import os
@@ -113,8 +114,16 @@ def run_shards(binary, pid, tier, nshards, timeout, extra_env=None, subs=None, r
         if extra_env:
             env.update(extra_env)
         log = open(os.path.join(tmp, "shard%d.log" % k), "w")
+        limit = None
+        if not (extra_env or {}).get("VERIF_RACE"):
+            # a runaway case must kill its own shard (inconclusive), not the machine;
+            # race binaries reserve terabytes of address space and are left alone
+            def limit():
+                gb = 12 * 1024 * 1024 * 1024
+                resource.setrlimit(resource.RLIMIT_AS, (gb, gb))
         p = subprocess.Popen([binary, "-test.run", run_re, "-test.timeout", "0", "-test.v"],
-                             cwd=workdir or env["VERIF_SCRATCH"], env=env, stdout=log, stderr=subprocess.STDOUT)
+                             cwd=workdir or env["VERIF_SCRATCH"], env=env, stdout=log, stderr=subprocess.STDOUT,
+                             preexec_fn=limit)
         procs.append((k, p, log))
     deadline = time.time() + timeout
     results = []
